@@ -1462,6 +1462,9 @@ def api_parse_check(ctx, cases):
 
 # --- C14 -------------------------------------------------------------------
 REPEAT_TABLE = [
+    # F26 (fixed): several diagnostics for one patch were reported in map iteration order
+    ("@@\n@@\n-qux(...)\n+qux(......)\n", "package a\n\nfunc f() { qux(1) }\n"),
+    ("@@\n@@\n-qux(...)\n+qux(......, ......)\n", "package a\n\nfunc f() { qux(1) }\n"),
     # a rewrite whose old and new lists can be paired in more than one way (results, statements, fields)
     ("# Errors go last.\n@@\nvar f identifier\nvar e expression\n@@\n-func f(...) (error, int, int) {\n-\treturn e, 0, 0\n+func f(...) (*Pos, error) {\n+\treturn nil, e\n }\n",
      "package p\n\nimport \"errors\"\n\nvar errNotFound = errors.New(\"not found\")\n\n// find looks up k.\nfunc find(k string) (error, int, int) {\n\treturn errNotFound, 0, 0\n}\n"),
